@@ -20,6 +20,7 @@ import (
 	"github.com/apache/skywalking-banyandb/pkg/fs"
 	"github.com/apache/skywalking-banyandb/pkg/logger"
 	"github.com/apache/skywalking-banyandb/pkg/timestamp"
+	"github.com/apache/skywalking-banyandb/pkg/verif/sched"
 )
 
 // VTable is a trivial TSTable that records its lifecycle.
@@ -54,11 +55,25 @@ func (t *VTable) Collect(Metrics) {
 	}
 }
 
+// VSnapshotYield makes VTable.TakeFileSnapshot a scheduling point of the controlled scheduler (a real table's
+// snapshot takes time; other threads may run while it copies).
+var VSnapshotYield bool
+
 // TakeFileSnapshot implements TSTable.
 func (t *VTable) TakeFileSnapshot(dst string) (bool, error) {
 	if t.Closed {
 		t.db.Errors = append(t.db.Errors, "TakeFileSnapshot on a closed table: "+t.rel())
 	}
+	if VSnapshotYield {
+		sched.Yield("table-snapshot")
+		if t.Closed {
+			t.db.Errors = append(t.db.Errors, "table closed while its file snapshot was being taken: "+t.rel())
+		}
+		if _, err := os.Stat(t.Loc); err != nil {
+			t.db.Errors = append(t.db.Errors, "shard directory removed while its file snapshot was being taken: "+t.rel())
+		}
+	}
+	t.db.Snapshots++
 	return true, os.WriteFile(dst+"/marker", []byte(t.Loc), 0o600)
 }
 
@@ -69,6 +84,7 @@ type VOpts struct {
 	TTL              IntervalRule
 	IdleTimeout      time.Duration
 	DisableRetention bool
+	ShardNum         uint32
 }
 
 // VClock is a harness-controlled clock: Now() is whatever the harness set, timers never fire. It deliberately does not
@@ -95,6 +111,7 @@ type VDB struct {
 	Errors      []string
 	TableOpens  int
 	TableCloses int
+	Snapshots   int
 }
 
 // VSeg wraps a real segment (s) as handed out by the API (h: the Segment value whose DecRef the caller must use).
@@ -129,7 +146,7 @@ func VOpenDB(dir string, o VOpts) (*VDB, error) {
 		Location:           dir,
 		SegmentInterval:    o.Interval,
 		TTL:                o.TTL,
-		ShardNum:           1,
+		ShardNum:           max(o.ShardNum, 1),
 		SegmentIdleTimeout: o.IdleTimeout,
 		DisableRetention:   o.DisableRetention,
 		TSTableCreator: func(_ fs.FileSystem, root string, _ common.Position, _ *logger.Logger, _ timestamp.TimeRange, _ any, _ any) (*VTable, error) {
@@ -273,6 +290,9 @@ func (s *VSeg) Delete() { s.s.delete() }
 
 // Table is CreateTSTableIfNotExist(0).
 func (s *VSeg) Table() (*VTable, error) { return s.s.CreateTSTableIfNotExist(0) }
+
+// TableN is CreateTSTableIfNotExist(id).
+func (s *VSeg) TableN(id int) (*VTable, error) { return s.s.CreateTSTableIfNotExist(common.ShardID(id)) }
 
 // Tables returns the open shard tables.
 func (s *VSeg) Tables() []*VTable { tt, _ := s.s.Tables(); return tt }
